@@ -564,20 +564,26 @@ pub trait PeekByte {
 
 impl PeekByte for Variant {
     fn peek_byte(&self, address: usize) -> Result<u8, RuntimeError> {
-        match self {
-            Self::VInteger(i) => {
-                let bytes = i32_to_bytes(*i);
-                Ok(bytes[address])
-            }
-            _ => todo!(),
-        }
+        let byte: Option<u8> = match self {
+            Self::VInteger(i) => i32_to_bytes(*i).get(address).copied(),
+            Self::VLong(l) => (*l as i32).to_le_bytes().get(address).copied(),
+            Self::VSingle(f) => f.to_le_bytes().get(address).copied(),
+            Self::VDouble(d) => d.to_le_bytes().get(address).copied(),
+            Self::VString(s) => s.chars().nth(address).map(|ch| ch as u8),
+            // records are not supported yet
+            _ => None,
+        };
+        byte.ok_or(RuntimeError::IllegalFunctionCall)
     }
 }
 
 impl PeekByte for VArray {
     fn peek_byte(&self, address: usize) -> Result<u8, RuntimeError> {
         let element_size = self.byte_size() / self.len();
-        debug_assert!(element_size > 0);
+        if element_size == 0 {
+            // e.g. an array of empty strings
+            return Err(RuntimeError::SubscriptOutOfRange);
+        }
         let element_index = address / element_size;
         let offset = address % element_size;
         let element = self
@@ -596,11 +602,22 @@ impl PokeByte for Variant {
         match self {
             Self::VInteger(i) => {
                 let mut bytes = i32_to_bytes(*i);
-                bytes[address] = value;
+                *bytes
+                    .get_mut(address)
+                    .ok_or(RuntimeError::IllegalFunctionCall)? = value;
                 *i = bytes_to_i32(bytes);
                 Ok(())
             }
-            _ => todo!(),
+            Self::VLong(l) => {
+                let mut bytes = (*l as i32).to_le_bytes();
+                *bytes
+                    .get_mut(address)
+                    .ok_or(RuntimeError::IllegalFunctionCall)? = value;
+                *l = i32::from_le_bytes(bytes) as i64;
+                Ok(())
+            }
+            // the other types are not supported yet
+            _ => Err(RuntimeError::IllegalFunctionCall),
         }
     }
 }
@@ -608,7 +625,10 @@ impl PokeByte for Variant {
 impl PokeByte for VArray {
     fn poke_byte(&mut self, address: usize, value: u8) -> Result<(), RuntimeError> {
         let element_size = self.byte_size() / self.len();
-        debug_assert!(element_size > 0);
+        if element_size == 0 {
+            // e.g. an array of empty strings
+            return Err(RuntimeError::SubscriptOutOfRange);
+        }
         let element_index = address / element_size;
         let offset = address % element_size;
         let element = self
